@@ -318,6 +318,38 @@ pub fn cases(thorough: bool) -> Vec<Case> {
         fs.push(parse1("(proc)"));
         out.push(Case { forms: fs, tags: vec!["form=let-scope".into(), "ctx=non-tail-body-expression".into(), "single".into()] });
     }
+    // (1c) the scopes the binding forms create, observed through closures made before a shadowing
+    // binding and through assignments inside the scope; the enclosing (top-level) p and q are
+    // read back afterwards
+    for text in [
+        "(let ((g (lambda () p))) (let ((p E1)) (list p (g))))",
+        "(let ((p E1)) (let ((g (lambda () p))) (let ((p E2)) (list p (g)))))",
+        "(let ((p E1)) (let ((g (lambda () p))) (let* ((p E2) (q (list p (g)))) (list p q (g)))))",
+        "(let* ((p E1) (g (lambda () p)) (p E2)) (list p (g)))",
+        "(let ((p E1)) (let ((g (lambda () p))) (begin (let ((p E2)) (list p (g))))))",
+        "(let ((p E1)) (let ((g (lambda () p))) (cond (#t (let ((p E2)) (list p (g)))))))",
+        "(let ((p E1)) (let ((g (lambda () p))) (when #t (let ((p E2)) (list p (g))))))",
+        "(let ((p E1)) (let ((g (lambda (p) (list p)))) (let ((p E2)) (list p (g 0)))))",
+        "(let ((p E1)) (set! p (list p)) p)",
+        "(let ((p E1)) (when #t (set! p (list p 'w))) (unless #f (set! p (list p 'u))) p)",
+        "(let* ((p E1) (p (list p))) (set! p (list p 's)) p)",
+        "(let ((p E1)) (cond (#t (set! p (list p 'c)))) (list p))",
+        "(let ((p E1)) (case 1 ((1) (set! p (list p 'k)))) (list p))",
+        "(let ((p E1)) (begin (set! q p) q))",
+        "(let ((p E1)) (let ((q E2)) (set! p (list p q)) (set! q 0) (list p q)))",
+        "(let ((p E1)) (let ((p E2)) (set! p 0)) p)",
+        "(let ((p E1)) (let ((g (lambda () (set! p (list p 'g))))) (let ((p E2)) (g) (list p))))",
+        "(let ((p E1) (q E2)) (and (set! p q) #t) (or #f (set! q 0)) (list p q))",
+    ] {
+        let t = parse1(text);
+        let form = instantiate(&t, &[], 0, None, None);
+        for (cname, forms) in contexts(&form) {
+            let mut fs = vec![parse1("(define p 1)"), parse1("(define q 2)")];
+            fs.extend(forms);
+            fs.push(parse1("(list p q)"));
+            out.push(Case { forms: fs, tags: vec!["form=let-scope-closures-assignment".into(), format!("ctx={}", cname), "single".into()] });
+        }
+    }
     // (2): every pair nested in every sub-form position (thorough: triples)
     let reps = representatives();
     for (ofam, ot, oa) in &reps {
